@@ -448,6 +448,33 @@ func runC02(s *Sim) {
 			add(a, fmt.Sprintf("sleep %s (transfer)", settle), func() { time.Sleep(settle) })
 		}
 		barrier(0)
+		// a second placement of one node (a group under the device, the node mirrored into it), deleted again through
+		// that second edge on the upstream side while the link is up: the deletion has to travel down in real time
+		if wl.Chance(1, 2) {
+			ga, ma := pick(), pick()
+			n := ids[wl.Draw(len(ids))]
+			add(ga, fmt.Sprintf("create group g1 under %s", dev), func() {
+				_ = client.SendNode(ga.Nc, data.NodeEdge{ID: "g1", Parent: dev, Type: data.NodeTypeGroup,
+					Points:     data.Points{{Type: "description", Text: "g1", Time: stamp()}},
+					EdgePoints: data.Points{{Type: data.PointTypeTombstone, Value: 0, Time: stamp()}}}, ga.Name)
+			})
+			for _, a := range []*Actor{actD, actU} {
+				add(a, fmt.Sprintf("sleep %s (transfer)", settle), func() { time.Sleep(settle) })
+			}
+			barrier(4)
+			add(ma, fmt.Sprintf("mirror %s under g1", n), func() { _ = client.MirrorNode(ma.Nc, n, "g1", ma.Name) })
+			for _, a := range []*Actor{actD, actU} {
+				add(a, fmt.Sprintf("sleep %s (transfer)", settle), func() { time.Sleep(settle) })
+			}
+			barrier(5)
+			add(actU, fmt.Sprintf("delete g1/%s (second edge, upstream, link up)", n), func() {
+				_ = client.SendEdgePoint(actU.Nc, n, "g1", data.Point{Type: data.PointTypeTombstone, Value: 1, Time: stamp(), Origin: actU.Name}, true)
+			})
+			for _, a := range []*Actor{actD, actU} {
+				add(a, "sleep 3s (deletion travels)", func() { time.Sleep(3 * time.Second) })
+			}
+			barrier(6)
+		}
 		// deletions while the link is up: each on one side, then time to travel
 		var deleted []string
 		for _, id := range ids {
